@@ -6,6 +6,7 @@ import (
 	"errors"
 	"io/fs"
 	"path"
+	"strings"
 
 	"github.com/google/osv-scalibr/artifact/image/layerscanning/image"
 	"github.com/google/osv-scalibr/internal/verifrt"
@@ -97,7 +98,8 @@ func VerifResolve() {
 			}
 			l0 = append(l0, tarstub.Entry{Name: paths[i], Typeflag: tar.TypeSymlink, Linkname: t, Mode: 0o777})
 		case kOutside:
-			t := "../../outside"
+			// the shortest relative target that leaves the root from this entry's directory
+			t := strings.Repeat("../", strings.Count(paths[i], "/")+1) + "outside"
 			l0 = append(l0, tarstub.Entry{Name: paths[i], Typeflag: tar.TypeSymlink, Linkname: t, Mode: 0o777})
 		}
 	}
